@@ -10,7 +10,8 @@ pub const BASE_NS: &str = "urn:ietf:params:xml:ns:netconf:base:1.0";
 pub const JUNOS_CAP: &str = "http://xml.juniper.net/netconf/junos/1.0";
 pub const EOM: &str = "]]>]]>";
 
-pub type BoxFut<T> = Pin<Box<dyn Future<Output = T> + Send>>;
+pub type LBoxFut<'a, T> = Pin<Box<dyn Future<Output = T> + Send + 'a>>;
+pub type BoxFut<T> = LBoxFut<'static, T>;
 
 struct Noop;
 impl Wake for Noop {
@@ -21,7 +22,7 @@ pub fn noop_waker() -> Waker {
 }
 
 /// Poll a boxed future once with a waker that does nothing.
-pub fn poll_once<T>(fut: &mut BoxFut<T>) -> Poll<T> {
+pub fn poll_once<T>(fut: &mut LBoxFut<'_, T>) -> Poll<T> {
     let waker = noop_waker();
     let mut cx = Context::from_waker(&waker);
     fut.as_mut().poll(&mut cx)
